@@ -12,9 +12,9 @@ open Convert C09L
 
 /-! ### example universe (used only by the `example`s that show the hypotheses are satisfiable) -/
 def tInt64 : Ty := .prim .int64
-def tS1 : Ty := .named "S1" [] ["Error|()(string)"] (.strct (.cons "A" tInt64 (.cons "B" (.prim .int32) (.cons "C" (.prim .bool) .nil))))
-def tS1b : Ty := .named "S1b" [] [] (.strct (.cons "X" tInt64 (.cons "Y" (.prim .int32) (.cons "Z" (.prim .bool) .nil))))
-def tS2 : Ty := .named "S2" [] [] (.strct (.cons "A" tInt64 (.cons "B" tInt64 (.cons "C" tInt64 .nil))))
+def tS1 : Ty := .named "S1" [] ["Error|()(string)"] (.strct [] [] (.cons "A" tInt64 (.cons "B" (.prim .int32) (.cons "C" (.prim .bool) .nil))))
+def tS1b : Ty := .named "S1b" [] [] (.strct [] [] (.cons "X" tInt64 (.cons "Y" (.prim .int32) (.cons "Z" (.prim .bool) .nil))))
+def tS2 : Ty := .named "S2" [] [] (.strct [] [] (.cons "A" tInt64 (.cons "B" tInt64 (.cons "C" tInt64 .nil))))
 def tError : Ty := .named "error" ["Error|()(string)"] [] (.iface ["Error|()(string)"])
 def tFunc : Ty := .func "()()"
 def vS1 : Val := .agg (.cons (.int 7) (.cons (.int (-2)) (.cons (.bool true) .nil)))
@@ -92,6 +92,27 @@ instance (a b : Ty) : Decidable (LayoutEq a b) := by unfold LayoutEq; infer_inst
 
 theorem layoutEq_size (a b : Ty) (h : LayoutEq a b) : a.size = b.size := by
   rw [← erase_size a, ← erase_size b, h]
+
+/-- What goom actually checks (review B2/A5): ANY value of the same size, kind and representation class is accepted for
+    a struct / pointer result and retyped with its payload untouched — identical layout (`LayoutEq`, next theorem) is one
+    way to meet the three equalities, flattened-identical layouts (`struct{In S3; T int8}` for `struct{P,Q int32; T int8}`)
+    another; for pointers the pointee is not looked at at all.  The property only says such a stand-in MAY be given. -/
+theorem same_size_kind_repr_accepted (t : Ty) (x : Val) (out : Ty) (hne : t ≠ out)
+    (hk : out.kind = .strct ∨ out.kind = .ptr) (hsz : t.size = out.size) (hkind : t.kind = out.kind)
+    (hdir : t.isDirect = out.isDirect) (hctx : isIContextPtr out = false) :
+    toValue K (some (t, x)) out = .ok ⟨out, out.kind, !out.isDirect, x⟩ ∧
+    (out.size ≠ 0 → returnE2E K [some (t, x)] [out] = .got [⟨out, out.kind, !out.isDirect, x⟩]) := by
+  have hc : out.kind ∈ K.cast := (K_cast_mem out.kind).2 hk
+  have hni : out.kind ≠ .iface := by rcases hk with h | h <;> rw [h] <;> decide
+  have htv : toValue K (some (t, x)) out = .ok ⟨out, out.kind, !out.isDirect, x⟩ := by
+    simp [toValue, hne, hc, hsz, Convert.cast, K_castNilSafe, hctx, hni, hkind, hdir]
+  refine ⟨htv, ?_⟩
+  intro hs0
+  rw [returnE2E_single, htv]
+  simp [RV.wellFlagged, deliver1, hs0, directlyAssignable_self]
+
+example : tS1b ≠ tS1 ∧ tS1b.size = tS1.size ∧ tS1b.kind = tS1.kind ∧ tS1b.isDirect = tS1.isDirect := by
+  refine ⟨by decide, by decide, by decide, by decide⟩
 
 /-- the stand-in is accepted and retyped: declared type, payload untouched, flag word still consistent -/
 theorem layout_standin_accepted (t : Ty) (x : Val) (out : Ty) (hne : t ≠ out)
@@ -201,59 +222,71 @@ theorem toValue_ok_payload (r : Boxed) (out : Ty) (v : RV) (h : toValue K r out 
             simp only [Except.ok.injEq] at h; subst h; simp [hs]
           · simp at h
 
+/-- content of a delivered value `a` relative to what was supplied for a result declared `o` -/
+def Content (r : Boxed) (o : Ty) (a : RV) : Prop :=
+  a.ty = o ∧
+  (o.size = 0 ∨
+    match r with
+    | none => a.val = zeroVal o
+    | some (t, x) => a.val = x ∨ a.val = .ifaceOf t x)
+
+/-- one position: a converted value that passes `reflect.MakeFunc`'s result check arrives with the declared type
+    and the supplied content -/
+theorem deliver1_content (r : Boxed) (out : Ty) (w a : RV) (hw : toValue K r out = .ok w)
+    (ha : deliver1 w out = some a) : Content r out a := by
+  have hp := toValue_ok_payload r out w hw
+  simp only [deliver1] at ha
+  split at ha
+  · rename_i hz
+    simp only [Option.some.injEq] at ha; subst ha
+    exact ⟨rfl, Or.inl hz⟩
+  · split at ha
+    · simp only [Option.some.injEq] at ha; subst ha
+      refine ⟨rfl, Or.inr ?_⟩
+      cases r with
+      | none => simp only at hp; subst hp; rfl
+      | some p =>
+        obtain ⟨t, x⟩ := p
+        simp only at hp
+        rcases hp with hp | hp
+        · exact Or.inl hp.2.1
+        · right; rw [hp.2]
+    · split at ha
+      · rename_i himp
+        -- boxing at delivery needs an interface result, and then toValue has already produced type `out`
+        have hki := implements_kind out w.ty himp
+        have hnda : ¬ directlyAssignable out w.ty = true := by assumption
+        exfalso
+        apply hnda
+        cases r with
+        | none => simp only at hp; subst hp; exact directlyAssignable_self out
+        | some p =>
+          obtain ⟨t, x⟩ := p
+          simp only at hp
+          rcases hp with hp | hp
+          · exact absurd hki hp.1
+          · rw [hp.2]; exact directlyAssignable_self out
+      · simp at ha
+
 /-- **Delivered means declared type and unaltered content.**  If a call of the stub returns at all, the value the
     caller receives has the declared type, and its content is the zero value (nil supplied), the supplied payload,
     or the supplied payload boxed with its dynamic type (interface result).  Results of size 0 carry no content. -/
 theorem delivered_typed_and_unaltered (r : Boxed) (out : Ty) (v : RV) (h : returnE2E K [r] [out] = .got [v]) :
-    v.ty = out ∧
-    (out.size = 0 ∨
-      match r with
-      | none => v.val = zeroVal out
-      | some (t, x) => v.val = x ∨ v.val = .ifaceOf t x) := by
-  rw [returnE2E_single] at h
-  split at h
-  · simp at h
-  · rename_i w hw
-    have hp := toValue_ok_payload r out w hw
+    Content r out v := by
+  have key : ∃ w, toValue K r out = .ok w ∧ deliver1 w out = some v := by
+    rw [returnE2E_single] at h
     split at h
     · simp at h
-    · split at h
+    · rename_i w hw
+      split at h
       · simp at h
-      · rename_i a ha
-        simp only [CallRes.got.injEq, List.cons.injEq, and_true] at h
-        subst h
-        simp only [deliver1] at ha
-        split at ha
-        · rename_i hz
-          simp only [Option.some.injEq] at ha; subst ha
-          exact ⟨rfl, Or.inl hz⟩
-        · split at ha
-          · simp only [Option.some.injEq] at ha; subst ha
-            refine ⟨rfl, Or.inr ?_⟩
-            cases r with
-            | none => simp only at hp; subst hp; rfl
-            | some p =>
-              obtain ⟨t, x⟩ := p
-              simp only at hp
-              rcases hp with hp | hp
-              · exact Or.inl hp.2.1
-              · right; rw [hp.2]
-          · split at ha
-            · rename_i himp
-              -- boxing at delivery needs an interface result, and then toValue has already produced type `out`
-              have hki := implements_kind out w.ty himp
-              have hnda : ¬ directlyAssignable out w.ty = true := by assumption
-              exfalso
-              apply hnda
-              cases r with
-              | none => simp only at hp; subst hp; exact directlyAssignable_self out
-              | some p =>
-                obtain ⟨t, x⟩ := p
-                simp only at hp
-                rcases hp with hp | hp
-                · exact absurd hki hp.1
-                · rw [hp.2]; exact directlyAssignable_self out
-            · simp at ha
+      · split at h
+        · simp at h
+        · rename_i a ha
+          simp only [CallRes.got.injEq, List.cons.injEq, and_true] at h
+          exact ⟨w, hw, by rw [ha, h]⟩
+  obtain ⟨w, hw, ha⟩ := key
+  exact deliver1_content r out w v hw ha
 
 /-! ## V2I and isZero -/
 
@@ -501,11 +534,105 @@ theorem too_many_results_rejected (values : List Boxed) (outs : List Ty) (h : ou
   have h2 : values.length ≠ outs.length := by omega
   simp [returnE2E, h1, I2V_arity_nonvariadic values outs h2]
 
+/-! ## several results: `Return(a, b, …)` on `func() (A, B, …)` -/
+
+/-- a delivered multi-result call, position by position: every supplied value was converted at the type of its
+    position, is a well-flagged Value, and passed the result check -/
+theorem returnE2E_got_pointwise (values : List Boxed) (outs : List Ty) (rs : List RV)
+    (h : returnE2E K values outs = .got rs) :
+    values.length = outs.length ∧ rs.length = outs.length ∧
+    ∀ j, j < outs.length → ∃ r o w a, values[j]? = some r ∧ outs[j]? = some o ∧ rs[j]? = some a ∧
+      toValue K r o = .ok w ∧ w.wellFlagged = true ∧ deliver1 w o = some a := by
+  simp only [returnE2E] at h
+  split at h
+  · simp at h
+  · split at h
+    · simp at h
+    · rename_i vs hvs
+      split at h
+      · simp at h
+      · rename_i hwf
+        split at h
+        · simp at h
+        · rename_i rs' hd
+          simp only [CallRes.got.injEq] at h
+          subst h
+          obtain ⟨hlen, hpt⟩ := I2V_nonvariadic_pointwise values outs vs hvs
+          obtain ⟨hl1, hl2, hdp⟩ := deliver_pointwise vs outs rs' hd
+          refine ⟨hlen, hl1, ?_⟩
+          intro j hj
+          obtain ⟨t, a0, v, h1, h2, h3, h4⟩ := hpt j (by omega)
+          obtain ⟨v', o, a, g1, g2, g3, g4⟩ := hdp j hj
+          rw [h3] at g1
+          simp only [Option.some.injEq] at g1
+          subst g1
+          rw [h1] at g2
+          simp only [Option.some.injEq] at g2
+          subst g2
+          refine ⟨a0, t, v, a, h2, h1, g3, h4, ?_, g4⟩
+          have : ¬ (vs.any (fun v => !v.wellFlagged) = true) := hwf
+          have hmem : v ∈ vs := List.mem_of_getElem? h3
+          cases hw : v.wellFlagged
+          · exfalso; apply this; simp only [List.any_eq_true]; exact ⟨v, hmem, by simp [hw]⟩
+          · rfl
+
+/-- **multi-result: delivered means declared type and unaltered content at every position** -/
+theorem multi_delivered_typed_and_unaltered (values : List Boxed) (outs : List Ty) (rs : List RV)
+    (h : returnE2E K values outs = .got rs) :
+    values.length = outs.length ∧ rs.length = outs.length ∧
+    ∀ j, j < outs.length → ∃ r o a, values[j]? = some r ∧ outs[j]? = some o ∧ rs[j]? = some a ∧ Content r o a := by
+  obtain ⟨h1, h2, h3⟩ := returnE2E_got_pointwise values outs rs h
+  refine ⟨h1, h2, ?_⟩
+  intro j hj
+  obtain ⟨r, o, w, a, g1, g2, g3, g4, _, g6⟩ := h3 j hj
+  exact ⟨r, o, a, g1, g2, g3, deliver1_content r o w a g4 g6⟩
+
+/-- **multi-result, nil position**: `Return(5, nil)` on `func() (int, error)` — whatever else is returned, the nil
+    position arrives as the typed zero value (the nil error) -/
+theorem multi_nil_is_typed_zero (values : List Boxed) (outs : List Ty) (rs : List RV) (j : Nat) (o : Ty)
+    (h : returnE2E K values outs = .got rs) (hv : values[j]? = some none) (ho : outs[j]? = some o)
+    (hk : Nilable o.kind) : rs[j]? = some (zeroRV o) := by
+  obtain ⟨_, _, h3⟩ := returnE2E_got_pointwise values outs rs h
+  have hj : j < outs.length := by
+    rcases Nat.lt_or_ge j outs.length with h' | h'
+    · exact h'
+    · rw [List.getElem?_eq_none h'] at ho; simp at ho
+  obtain ⟨r, o', w, a, g1, g2, g3, g4, _, g6⟩ := h3 j hj
+  rw [hv] at g1; simp only [Option.some.injEq] at g1; subst g1
+  rw [ho] at g2; simp only [Option.some.injEq] at g2; subst g2
+  rw [(nil_is_typed_zero o hk).1] at g4
+  simp only [Except.ok.injEq] at g4; subst g4
+  have hs : o.size ≠ 0 := nilable_size_pos o hk
+  simp [deliver1, hs, directlyAssignable_self, zeroRV] at g6
+  rw [g3, ← g6]; rfl
+
+example : ∃ rs, returnE2E K [some (tInt64, .int 5), none] [tInt64, tError] = .got rs := by
+  have hm : Kind.iface ∈ K.nil := by decide
+  refine ⟨[⟨tInt64, .int, true, .int 5⟩, ⟨tError, .iface, true, .ifaceNil⟩], ?_⟩
+  simp [returnE2E, I2V, I2V.go, I2V.convAt, I2V.typeAt, toValue, hm, zeroRV, tError, tInt64, Ty.kind, Prim.kind, Ty.isDirect,
+    zeroVal, isIContextPtr, Ty.size, Prim.size, RV.wellFlagged, deliver, deliver1, directlyAssignable]
+
+/-- **multi-result, clause 4**: a value of another size at ANY position keeps the whole call from being delivered -/
+theorem multi_size_mismatch_rejected (values : List Boxed) (outs : List Ty) (j : Nat) (t : Ty) (x : Val) (o : Ty)
+    (hv : values[j]? = some (some (t, x))) (ho : outs[j]? = some o) (hs : t.size ≠ o.size) (hk : o.kind ≠ .iface) :
+    ∀ rs, returnE2E K values outs ≠ .got rs := by
+  intro rs h
+  obtain ⟨_, _, h3⟩ := returnE2E_got_pointwise values outs rs h
+  have hj : j < outs.length := by
+    rcases Nat.lt_or_ge j outs.length with h' | h'
+    · exact h'
+    · rw [List.getElem?_eq_none h'] at ho; simp at ho
+  obtain ⟨r, o', w, a, g1, g2, _, g4, _, _⟩ := h3 j hj
+  rw [hv] at g1; simp only [Option.some.injEq] at g1; subst g1
+  rw [ho] at g2; simp only [Option.some.injEq] at g2; subst g2
+  rcases (size_mismatch_rejected t x o hs hk).1 with h' | h' <;> rw [h'] at g4 <;> simp at g4
+
 /-! ## the batch forms: `Matches(arg.Pair{…, Return: r})` and `Returns(v₁, v₂, …)` -/
 
 /-- a bare value given as `Pair.Return` (the untyped nil included) is a single result, converted exactly as by
-    `Return(value)` -/
-theorem matches_bare_value_is_single_result (b : Boxed) (out : Ty) :
+    `Return(value)`.  Domain: `PairRet.WF` — a bare `[]interface{}` is not a bare value but the list form
+    (documented flattening, see Findings/C09AnySlice.lean), so it is excluded here by hypothesis. -/
+theorem matches_bare_value_is_single_result (b : Boxed) (out : Ty) (_hwf : (PairRet.one b).WF) :
     matchesE2E K (.one b) [out] = returnE2E K [b] [out] := by
   simp [matchesE2E, returnE2E, PairRet.results]
 
@@ -519,7 +646,7 @@ theorem matches_list_is_result_list (bs : List Boxed) (outs : List Ty) (h : outs
     with `Return(nil)` — a nil error that compares equal to nil, a nil pointer, slice, map, channel, func -/
 theorem matches_nil_is_typed_zero (out : Ty) (h : Nilable out.kind) :
     matchesE2E K (.one none) [out] = .got [zeroRV out] := by
-  rw [matches_bare_value_is_single_result, nil_result_at_caller out h]
+  rw [matches_bare_value_is_single_result none out trivial, nil_result_at_caller out h]
 
 example : Nilable tError.kind ∧ Nilable (Ty.ptr tS1).kind := by decide
 
@@ -542,6 +669,146 @@ theorem seq_zero_group_delivered (out : Ty) (h : Nilable out.kind) (rest : List 
 theorem seq_last_sticky (stored : List (List RV)) (outs : List Ty) (i : Nat) (h : stored.length - 1 ≤ i) :
     seqCall stored outs i = seqCall stored outs (stored.length - 1) := by
   simp [seqCall, Nat.min_eq_right h]
+
+/-! ### result sequences at full strength (review A2) -/
+
+/-- `Matches` differs from `Return` only by the missing count pre-check: they deliver the same things -/
+theorem matchesE2E_got_iff (g : PairRet) (outs : List Ty) (rs : List RV) :
+    matchesE2E K g outs = .got rs ↔ returnE2E K g.results outs = .got rs := by
+  simp only [matchesE2E, returnE2E]
+  cases hI : I2V K g.results outs false with
+  | error e =>
+    simp only
+    constructor
+    · intro h; simp at h
+    · intro h; split at h <;> simp at h
+  | ok vs =>
+    have hl : ¬ g.results.length < outs.length := by
+      by_cases hl : g.results.length = outs.length
+      · omega
+      · rw [I2V_arity_nonvariadic _ _ hl] at hI; simp at hI
+    simp [hl]
+
+/-- every stored group of `Returns(g₁ … g_k)` is the conversion of the corresponding supplied group -/
+theorem seqConfigure_pointwise (outs : List Ty) : ∀ (gs : List PairRet) (stored : List (List RV)),
+    seqConfigure K outs gs = .ok stored →
+    stored.length = gs.length ∧
+    ∀ i, i < gs.length → ∃ g vs, gs[i]? = some g ∧ stored[i]? = some vs ∧ I2V K g.results outs false = .ok vs := by
+  intro gs
+  induction gs with
+  | nil => intro stored h; simp [seqConfigure] at h; subst h; simp
+  | cons g gs ih =>
+    intro stored h
+    simp only [seqConfigure] at h
+    cases h1 : I2V K g.results outs false with
+    | error e => simp [h1] at h
+    | ok vs =>
+      cases h2 : seqConfigure K outs gs with
+      | error e => simp [h1, h2] at h
+      | ok r =>
+        simp [h1, h2] at h
+        subst h
+        obtain ⟨i1, i2⟩ := ih r h2
+        refine ⟨by simp [i1], ?_⟩
+        intro i hi
+        cases i with
+        | zero => exact ⟨g, vs, by simp, by simp, h1⟩
+        | succ k =>
+          obtain ⟨g', vs', a1, a2, a3⟩ := i2 k (by simp at hi; omega)
+          exact ⟨g', vs', by simpa using a1, by simpa using a2, a3⟩
+
+/-- **the i-th call after `Returns(g₁ … g_k)`** (also `When(x).Returns(…)` / `.Return(g₁).AndReturn(g₂)…`): it behaves
+    exactly like a stub configured with the single group `g_{min i (k-1)}` — in order, last one sticky -/
+theorem seq_call_is_group (outs : List Ty) (gs : List PairRet) (stored : List (List RV)) (i : Nat)
+    (hne : gs ≠ []) (h : seqConfigure K outs gs = .ok stored) :
+    ∃ g, gs[min i (gs.length - 1)]? = some g ∧ seqCall stored outs i = matchesE2E K g outs := by
+  obtain ⟨hl, hp⟩ := seqConfigure_pointwise outs gs stored h
+  have hpos : 0 < gs.length := by cases gs with | nil => exact absurd rfl hne | cons _ _ => simp
+  have hidx : min i (gs.length - 1) < gs.length := by omega
+  obtain ⟨g, vs, a1, a2, a3⟩ := hp _ hidx
+  refine ⟨g, a1, ?_⟩
+  simp only [seqCall, hl, a2, matchesE2E, a3]
+
+/-- **… and what it delivers has the declared types and the supplied content of that group, position by position**
+    (so the clause theorems — typed zero for nil, boxed with dynamic type, stand-in, size mismatch — hold for every
+    group of a sequence, through `multi_delivered_typed_and_unaltered` / `multi_nil_is_typed_zero` / `multi_size_mismatch_rejected`) -/
+theorem seq_call_delivered_typed_and_unaltered (outs : List Ty) (gs : List PairRet) (stored : List (List RV)) (i : Nat)
+    (rs : List RV) (hne : gs ≠ []) (h : seqConfigure K outs gs = .ok stored) (hc : seqCall stored outs i = .got rs) :
+    ∃ g, gs[min i (gs.length - 1)]? = some g ∧ g.results.length = outs.length ∧ rs.length = outs.length ∧
+      ∀ j, j < outs.length → ∃ r o a, g.results[j]? = some r ∧ outs[j]? = some o ∧ rs[j]? = some a ∧ Content r o a := by
+  obtain ⟨g, hg, hcall⟩ := seq_call_is_group outs gs stored i hne h
+  rw [hcall, matchesE2E_got_iff] at hc
+  obtain ⟨h1, h2, h3⟩ := multi_delivered_typed_and_unaltered g.results outs rs hc
+  exact ⟨g, hg, h1, h2, h3⟩
+
+example : seqConfigure K [tError] [.one none, .one none] = .ok [[zeroRV tError], [zeroRV tError]] := by
+  have h := (nil_is_typed_zero tError (by decide)).1
+  simp [seqConfigure, PairRet.results, I2V_single, h]
+
+/-! ### values given to `When(…)` / `arg.In(…)` (review A1) -/
+
+/- FULL statement of the clause (not proved here): "`When(x₁…x_k)` answers exactly the calls whose i-th argument equals
+   xᵢ as a value of the i-th declared type".  It needs goom's comparison `arg/equals.go equal`, which is modelled and
+   proved in C18 (`Model/Equal.lean`, `equals_spec`), not in this model.  Proved here is the conversion half: what is
+   stored for comparison is `toValue` of each supplied value at the declared type of ITS position, nothing is stored
+   when any position is rejected, so every clause theorem above (typed zero, boxed with dynamic type, stand-in retyped
+   with payload untouched, other size rejected) holds for the comparison operands.  That an accepted value then answers
+   the call made with that very value (and not its near miss) is observed by the when/when2/whenv/in lanes. -/
+
+/-- **conversion half, positionwise** -/
+theorem when_values_converted_as_declared_partial : ∀ (ps : List (Boxed × Ty)) (vs : List RV),
+    whenConfigure K ps = .ok vs →
+    vs.length = ps.length ∧
+    ∀ j, j < ps.length → ∃ b t v, ps[j]? = some (b, t) ∧ vs[j]? = some v ∧ toValue K b t = .ok v := by
+  intro ps
+  induction ps with
+  | nil => intro vs h; simp [whenConfigure] at h; subst h; simp
+  | cons p ps ih =>
+    intro vs h
+    obtain ⟨b, t⟩ := p
+    simp only [whenConfigure] at h
+    cases h1 : toValue K b t with
+    | error e => simp [h1] at h
+    | ok v =>
+      cases h2 : whenConfigure K ps with
+      | error e => simp [h1, h2] at h
+      | ok r =>
+        simp [h1, h2] at h
+        subst h
+        obtain ⟨i1, i2⟩ := ih r h2
+        refine ⟨by simp [i1], ?_⟩
+        intro j hj
+        cases j with
+        | zero => exact ⟨b, t, v, by simp, by simp, h1⟩
+        | succ k =>
+          obtain ⟨b', t', v', a1, a2, a3⟩ := i2 k (by simp at hj; omega)
+          exact ⟨b', t', v', by simpa using a1, by simpa using a2, a3⟩
+
+/-- a value of another size at any position of `When(…)` / `In(…)` rejects the whole condition: nothing is compared
+    against a reinterpreted value -/
+theorem when_size_mismatch_rejected (ps : List (Boxed × Ty)) (j : Nat) (t : Ty) (x : Val) (p : Ty)
+    (hj : ps[j]? = some (some (t, x), p)) (hs : t.size ≠ p.size) (hk : p.kind ≠ .iface) :
+    ∀ vs, whenConfigure K ps ≠ .ok vs := by
+  intro vs h
+  have hjl : j < ps.length := by
+    rcases Nat.lt_or_ge j ps.length with h' | h'
+    · exact h'
+    · rw [List.getElem?_eq_none h'] at hj; simp at hj
+  obtain ⟨b, t', v, a1, _, a3⟩ := (when_values_converted_as_declared_partial ps vs h).2 j hjl
+  rw [hj] at a1
+  simp only [Option.some.injEq, Prod.mk.injEq] at a1
+  obtain ⟨e1, e2⟩ := a1
+  subst e1; subst e2
+  rcases (size_mismatch_rejected t x p hs hk).1 with h' | h' <;> rw [h'] at a3 <;> simp at a3
+
+/- Re-use of one `arg.In(v₁…v_k)` object on functions with different parameter types: `whenConfigure` is a function of
+   (values, declared types) only, so in the model the outcome at the second function cannot depend on the first use;
+   that the implementation has no such memory either is what the `c09.in` lane observes (seeded change c09-r4-2). -/
+
+example : whenConfigure K [(some (tS1b, vS1), tS1)] = .ok [⟨tS1, .strct, true, vS1⟩] := by
+  have h := (layout_standin_accepted tS1b vS1 tS1 (by decide) (by decide) (by decide) (by decide)).1
+  simp only [whenConfigure, h]
+  rfl
 
 /-! ## the boundary of the model: exactly when the answer is `unmodelled` -/
 
